@@ -115,6 +115,15 @@ func (g *ArrayFieldGenerator) Generate(value client.NormalValue, f func(client.N
 
 	// Remove duplicates to avoid duplicate index entries
 	uniqueVals := slice.RemoveDuplicates(normVals)
+	if len(uniqueVals) == 0 {
+		// a document whose array is nil or empty is indexed under nil: without an entry it could not be
+		// found through the other fields of a composite index
+		nilVal, err := client.NewNormalNil(client.FieldKind_NILLABLE_INT)
+		if err != nil {
+			return err
+		}
+		return f(nilVal)
+	}
 	for _, val := range uniqueVals {
 		if err := f(val); err != nil {
 			return err
